@@ -2215,13 +2215,29 @@ def check_equality(ctx):
                                     'would compare unequal, equivalence to element-wise equality cannot be shown')
                 out.append(('equality', bool(just), 'False only when a necessary condition of equality fails', f'return False   [when {when}]'))
                 continue
-            facts, unknown = set(true_facts), []
+            facts, unknown, negated = set(true_facts), [], []
             for part in parts:
                 f_ = fact_of(part, len_known or 'LEN' in facts)
                 if f_ is None:
-                    unknown.append(u(part)[:80])
+                    # the NEGATION of a known comparison (a != b, not f(a, b)): equality is then granted only when that aspect differs
+                    pos = None
+                    if isinstance(part, ast.Compare) and len(part.ops) == 1 and isinstance(part.ops[0], ast.NotEq):
+                        pos = ast.Compare(left=part.left, ops=[ast.Eq()], comparators=part.comparators)
+                    elif isinstance(part, ast.UnaryOp) and isinstance(part.op, ast.Not):
+                        pos = part.operand
+                    fn_ = fact_of(ast.fix_missing_locations(ast.copy_location(pos, part)), len_known or 'LEN' in facts) if pos is not None else None
+                    if fn_ is not None:
+                        negated.append(fn_)
+                    elif isinstance(part, ast.BoolOp) and isinstance(part.op, ast.Or) and all(fact_of(v_, len_known or 'LEN' in facts) is not None for v_ in part.values):
+                        # a disjunction of comparisons: equality is granted as soon as ONE aspect agrees
+                        negated.append('all of ' + ' / '.join(sorted(fact_of(v_, len_known or 'LEN' in facts) for v_ in part.values)) + ' (only one of them is required)')
+                    else:
+                        unknown.append(u(part)[:80])
                 else:
                     facts.add(f_)
+            if negated and not unknown:
+                out.append(('equality', False, 'a conjunction of comparisons that equal collections satisfy', f'{got}: does not require {sorted(negated)} to agree   [when {when}]'))
+                continue
             if false_facts & necessary:
                 out.append(('equality', False, 'False when a necessary condition of equality fails', f'{got} although {sorted(false_facts & necessary)} differ   [when {when}]'))
                 continue
@@ -2369,6 +2385,8 @@ VARIANTS = [
     V('_check_index no negative conversion', 'B', _I, "i2 = i + len(self) if i < 0 else i", "i2 = i", 'X3'),
     V('SignatureList selection drops kmerspec', 'B', _B, "return SignatureList([self._list[i] for i in indices], self.kmerspec, self.dtype)", "return SignatureList([self._list[i] for i in indices], None, self.dtype)", 'X5'),
     V('int-array selection drops dtype', 'B', _B, "self.kmerspec, dtype=self.values.dtype)", "self.kmerspec)", 'X5'),
+    V('__eq__ requires the k-mer parameters to differ (mutation probe)', 'B', _B, "return self.kmerspec == other.kmerspec and sigarray_eq(self, other)", "return self.kmerspec != other.kmerspec and sigarray_eq(self, other)", 'X7'),
+    V('__eq__ accepts when one aspect agrees (mutation probe)', 'B', _B, "return self.kmerspec == other.kmerspec and sigarray_eq(self, other)", "return self.kmerspec == other.kmerspec or sigarray_eq(self, other)", 'X7'),
     V('__eq__ ignores kmerspec', 'B', _B, "return self.kmerspec == other.kmerspec and sigarray_eq(self, other)", "return sigarray_eq(self, other)", 'X7'),
     V('sigarray_eq ignores length', 'B', _B, "return len(a1) == len(a2) and all(map(np.array_equal, a1, a2))", "return all(map(np.array_equal, a1, a2))", 'X7'),
     V('element bounds check dropped', 'B', _I, "\t\t\tfor i in index:\n\t\t\t\tself._check_index(i)\n", "", 'X1'),
